@@ -626,8 +626,9 @@ func TestVerifC20(t *testing.T) {
 		human := rng.Bool()
 		nBig := 1 + rng.Intn(3)
 		type put struct {
-			ref pdf.Reference
-			val pdf.Object
+			ref  pdf.Reference
+			val  pdf.Object
+			body []byte // a stream with this data (and an indirect /Length behind it), if not nil
 		}
 		var puts []put
 		usedNum := map[uint32]bool{}
@@ -642,7 +643,12 @@ func TestVerifC20(t *testing.T) {
 			usedNum[num] = true
 			g := uint16(10000 + rng.Intn(55536))
 			var v pdf.Object
-			switch rng.Intn(3) {
+			var body []byte
+			switch rng.Intn(4) {
+			case 3:
+				// (printable data without the keyword, not ending in an end-of-line byte)
+				body = bytes.Repeat([]byte("stream data. "), 1+rng.Intn(120))
+				body = append(body, byte('a'+i))
 			case 0:
 				v = pdf.Dict{"Answer": pdf.Integer(rng.Intn(1000)), "K": pdf.Name(fmt.Sprintf("N%d", i))}
 			case 1:
@@ -650,7 +656,16 @@ func TestVerifC20(t *testing.T) {
 			default:
 				v = pdf.Integer(rng.Intn(1 << 30))
 			}
-			puts = append(puts, put{pdf.NewReference(num, g), v})
+			puts = append(puts, put{pdf.NewReference(num, g), v, body})
+		}
+		// (a stream on this sink makes the Writer allocate the number after the
+		// highest one in use for its length: no streams next to the maximal number)
+		for _, p := range puts {
+			if p.ref.Number() > 16777000 {
+				for i := range puts {
+					puts[i].body = nil
+				}
+			}
 		}
 		for pad := 0; pad < 1100; pad++ {
 			out := &c20Sink{}
@@ -659,10 +674,24 @@ func TestVerifC20(t *testing.T) {
 				c.Violationf("writer-refused-valid-call", "NewWriter: %v", err)
 				return
 			}
-			all := []put{{w.Alloc(), pdf.String(strings.Repeat("x", base+pad))}}
+			all := []put{{w.Alloc(), pdf.String(strings.Repeat("x", base+pad)), nil}}
 			all = append(all, puts...)
-			all = append(all, put{w.Alloc(), pdf.Name("Last")})
+			all = append(all, put{w.Alloc(), pdf.Name("Last"), nil})
 			for _, p := range all {
+				if p.body != nil {
+					stm, err := w.OpenStream(p.ref, nil)
+					if err == nil {
+						_, err = stm.Write(p.body)
+					}
+					if err == nil {
+						err = stm.Close()
+					}
+					if err != nil {
+						c.Violationf("writer-refused-valid-call", "OpenStream(%s): %v", p.ref, err)
+						return
+					}
+					continue
+				}
 				if err := w.Put(p.ref, p.val); err != nil {
 					c.Violationf("writer-refused-valid-call", "Put(%s): %v", p.ref, err)
 					return
@@ -696,6 +725,24 @@ func TestVerifC20(t *testing.T) {
 					return
 				}
 				val, err := fi.Read(fo)
+				if p.body != nil {
+					var got []byte
+					stm, ok := val.(*pdf.Stream)
+					if err == nil && ok {
+						var rc io.ReadCloser
+						if rc, err = pdf.DecodeStream(c20Getter{pdf.V1_7}, nil, stm); err == nil {
+							got, err = io.ReadAll(rc)
+							rc.Close()
+						}
+					}
+					if err != nil || !ok || !bytes.Equal(got, p.body) {
+						c.Violationf("truncated/stream-body", "unclosed Writer, filler %d: stream %s at offset %d read as %T, %d bytes %s (%v), written %d bytes", base+pad, p.ref, pos, val, len(got), kit.Q(got), err, len(p.body))
+						return
+					}
+					c.R.Count("longest_header_streams_decoded", 1)
+					c.R.Seen("longest-header-offset-mod-1024", fmt.Sprint(pos%1024))
+					continue
+				}
 				if err != nil || !gen.Same(p.val, val) {
 					c.Violationf("truncated/value", "unclosed Writer, filler %d: object %s read %s (%v), written %s", base+pad, p.ref, kit.Trunc(gen.Canon(val), 200), err, kit.Trunc(gen.Canon(p.val), 200))
 					return
